@@ -28,7 +28,7 @@ func nib16(x uint64) []int {
 
 func randomRun(d *Drv, goroutines, perG, procs int, yield bool) {
 	total := goroutines * perG
-	slots := make([]revent, 4*total+16)
+	slots := make([]revent, 4*total+4*goroutines+16)
 	var next int64
 	put := func(e revent) {
 		i := atomic.AddInt64(&next, 1) - 1
@@ -52,6 +52,11 @@ func randomRun(d *Drv, goroutines, perG, procs int, yield bool) {
 		go func() {
 			defer wg.Done()
 			<-start
+			defer func() {
+				if r := recover(); r != nil {
+					put(revent{kind: 5})
+				}
+			}()
 			for i := 0; i < perG; i++ {
 				id := uu.RandomID()
 				put(revent{kind: 4, id: id})
@@ -75,19 +80,21 @@ func randomRun(d *Drv, goroutines, perG, procs int, yield bool) {
 			d.S.Emit(Ev{"op": "r.exit", "st": 1})
 		case 3:
 			d.S.Emit(Ev{"op": "r.drawn", "a": nib16(e.a), "b": nib16(e.b), "st": 1})
+		case 5:
+			d.S.Emit(Ev{"op": "r.panic", "st": 1})
 		case 4:
 			rets++
 			d.S.Emit(Ev{"op": "r.ret", "id": nibbles(e.id), "st": 1})
 		}
 	}
-	d.S.Emit(Ev{"op": "r.end", "n": rets, "st": 1})
+	d.S.Emit(Ev{"op": "r.end", "n": rets, "want": total, "st": 1})
 	d.S.Close()
 }
 
 func init() {
 	// recorded concurrent events are observations; re-execution cannot reproduce a schedule, so
 	// replay re-validates the recorded run itself
-	for _, op := range []string{"r.reset", "r.enter", "r.exit", "r.drawn", "r.ret", "r.end"} {
+	for _, op := range []string{"r.reset", "r.enter", "r.exit", "r.drawn", "r.ret", "r.end", "r.panic"} {
 		ops[op] = func(e Ev) Ev { return e }
 	}
 	drivers["c19"] = func(d *Drv) {
